@@ -838,6 +838,9 @@ pub fn replay(case: &serde_json::Value) -> i32 {
     if case["part"] == "d" && super::c11d::replay(case) {
         return 1;
     }
+    if case["part"] == "f" && super::c11f::replay(case) {
+        return 1;
+    }
     if case["part"] == "c" {
         let text = case["script"].as_str().unwrap();
         let mut setup = Setup::script("");
@@ -883,7 +886,10 @@ pub fn run(tier: Tier) -> i32 {
     let (c_execs, c_judged) = part_c(&ctx);
     let (d_runs, d_steps) = super::c11d::part_d(&ctx, &samples);
     let (e_execs, e_both) = part_e(&ctx);
+    let (f_runs, f_steps) = super::c11f::part_f(&ctx);
     let cov = json!({
+        "part_f_multi_condition_trap_histories": f_runs,
+        "part_f_commands_compared": f_steps,
         "part_e_two_signal_executions": e_execs,
         "part_e_executions_with_both_signals_delivered": e_both,
         "part_d_set_trap_histories": d_runs,
@@ -892,14 +898,14 @@ pub fn run(tier: Tier) -> i32 {
         "part_c_interactive_executions_judged": c_judged,
         "states": states,
         "transitions": transitions,
-        "traces_validated_against_impl": transitions + execs + c_execs + d_runs + e_execs,
+        "traces_validated_against_impl": transitions + execs + c_execs + d_runs + e_execs + f_runs,
         "samples": samples.take(),
         "part_a_closure_reached_in_every_configuration": closed,
         "part_b_executions": execs,
         "part_b_syscall_injection_points": points,
         "part_b_double_deliveries_that_coalesced": coalesced,
         "part_b_executions_in_which_the_signal_interrupted_wait": INTERRUPTED_WAITS.load(Relaxed),
-        "explanation": "(a) BFS by history replay over the real TrapSet bound to a real Concurrent<VirtualSystem>: ops = set_action(Default|Ignore|Command, override f/t) per signal, peek_state, catch_signal (a delivery is reported) and take_signal_if_caught (a command action has to run iff a delivery was reported since the action was set, exactly once), enable/disable each internal disposition group, enter_subshell with each option pair; per signal class {INT,QUIT,TERM,CHLD,TSTP,USR1,KILL,STOP} x initial disposition {default, ignored} and 4 signal pairs; after every op the disposition installed in the simulated process and its signal mask are read back and compared with the reference merge max(internal, user) (caught <=> blocked), return values compared, states merged on (model, Debug of the trap set, installed dispositions). (b) 8 scripts with traps: the signal is raised on the shell at every simulated system call index k (and at pairs k1,k2); the markers outside the trap and the exit status must equal the undisturbed run, the trap must run exactly once per delivery (1..n for n coalescing deliveries). (c) interactive shells (-i) whose built-in (read, cat, a function reading) blocks on a pipe: SIGINT alone, SIGUSR1+SIGINT in either order at the same system call, and at consecutive calls, at every system call index; executions in which the built-in was interrupted must run the USR1 trap exactly once, discard the rest of the interrupted line only, and go on with the next lines; two interactive scripts with pathname expansion, loops, subshells and substitutions under SIGUSR1 alone at every system call: results unchanged, trap exactly once. (d) every history of 3 (thorough: 4) commands over 25 commands (a failing `exec`; `set` switching monitor alone, before / after / grouped with another option, by long name; `trap` command / ignore / reset on TSTP, TTIN, INT, TERM) in an interactive (-i, monitor on) and a non-interactive shell: after every command the dispositions installed in the simulated process for INT QUIT TERM TSTP TTIN TTOU, the signal mask and the option set are compared with max(user trap, shell's own need)",
+        "explanation": "(a) BFS by history replay over the real TrapSet bound to a real Concurrent<VirtualSystem>: ops = set_action(Default|Ignore|Command, override f/t) per signal, peek_state, catch_signal (a delivery is reported) and take_signal_if_caught (a command action has to run iff a delivery was reported since the action was set, exactly once), enable/disable each internal disposition group, enter_subshell with each option pair; per signal class {INT,QUIT,TERM,CHLD,TSTP,USR1,KILL,STOP} x initial disposition {default, ignored} and 4 signal pairs; after every op the disposition installed in the simulated process and its signal mask are read back and compared with the reference merge max(internal, user) (caught <=> blocked), return values compared, states merged on (model, Debug of the trap set, installed dispositions). (b) 8 scripts with traps: the signal is raised on the shell at every simulated system call index k (and at pairs k1,k2); the markers outside the trap and the exit status must equal the undisturbed run, the trap must run exactly once per delivery (1..n for n coalescing deliveries). (c) interactive shells (-i) whose built-in (read, cat, a function reading) blocks on a pipe: SIGINT alone, SIGUSR1+SIGINT in either order at the same system call, and at consecutive calls, at every system call index; executions in which the built-in was interrupted must run the USR1 trap exactly once, discard the rest of the interrupted line only, and go on with the next lines; two interactive scripts with pathname expansion, loops, subshells and substitutions under SIGUSR1 alone at every system call: results unchanged, trap exactly once. (d) every history of 3 (thorough: 4) commands over 25 commands (a failing `exec`; `set` switching monitor alone, before / after / grouped with another option, by long name; `trap` command / ignore / reset on TSTP, TTIN, INT, TERM) in an interactive (-i, monitor on) and a non-interactive shell: after every command the dispositions installed in the simulated process for INT QUIT TERM TSTP TTIN TTOU, the signal mask and the option set are compared with max(user trap, shell's own need). (f) one `trap` command naming two or three distinct conditions out of {INT HUP USR1 TERM KILL STOP} in every order x {command, ignore, reset}, alone and followed by a second such command, in interactive and non-interactive shells started with nothing / INT / INT+HUP ignored: a refused condition (KILL, STOP, ignored at start-up) does not keep the other conditions of the command from taking effect",
     });
     ctx.finish(cov, &["signals are injected at syscall boundaries of the simulator (complete because caught signals are blocked outside select)", "reference merge model trusted"])
 }
